@@ -45,6 +45,14 @@ var $flatten64f32 = x => {
     return $fround(hi * 4294967296 + lo);
 };
 
+// $shiftCount checks the count of a shift whose count operand has a signed type: a negative count panics.
+var $shiftCount = y => {
+    if (y < 0) {
+        $throwRuntimeError("negative shift amount");
+    }
+    return y;
+};
+
 var $shiftLeft64 = (x, y) => {
     if (y === 0) {
         return x;
